@@ -16,13 +16,20 @@ from dataclasses import dataclass, field
 
 import z3
 
-from .engine import EUCLID, I, fresh
+from .engine import EUCLID, I, ediv, fresh
 
 OPAQUE = {}  # uninterpreted function name -> python definition over z3 terms (R4)
 
 
-def register_opaque(name, fn):
+OPAQUE_WHEN = {}  # name -> predicate(obligation name): unfold only in those obligations (default: everywhere)
+
+
+def register_opaque(name, fn, when=None):
     OPAQUE[name] = fn
+    if when is not None:
+        OPAQUE_WHEN[name] = when
+    else:
+        OPAQUE_WHEN.pop(name, None)
 
 
 def has_quant(e):
@@ -177,6 +184,10 @@ def euclid_lemmas(exprs):
         for (x2, d2, q2, r2) in live:
             if q1 is q2 or not d1.eq(d2):
                 continue
+            # spec-side pairs (sq!/sr!) are related to each other only through the code's pairs: keeps the instance count
+            # linear in the number of unfolded spec applications instead of quadratic
+            if str(q1).startswith("sq!") and str(q2).startswith("sq!"):
+                continue
             if z3.is_int_value(d1):
                 continue  # constant divisor: linear already
             t = x2 - q1 * d1
@@ -218,7 +229,7 @@ def _smt2(assertions):
     return s.to_smt2()
 
 
-def unfold_opaque(exprs, depth=2):
+def unfold_opaque(exprs, depth=2, ob_name=""):
     """definitional equations for every ground application of a registered opaque spec function (R4)"""
     eqs = []
     seen = set()
@@ -228,6 +239,9 @@ def unfold_opaque(exprs, depth=2):
 
         def f(x):
             if z3.is_app(x) and x.decl().kind() == z3.Z3_OP_UNINTERPRETED and x.num_args() > 0 and x.decl().name() in OPAQUE:
+                w = OPAQUE_WHEN.get(x.decl().name())
+                if w is not None and not w(ob_name):
+                    return
                 if x.get_id() not in seen and not any(has_var(c) for c in x.children()):
                     seen.add(x.get_id())
                     apps.append(x)
@@ -253,7 +267,7 @@ def unfold_opaque(exprs, depth=2):
     return eqs
 
 
-def prepare(obs, shifts_for=None, extra_inst_terms=None, euclid_pairs=None):
+def prepare(obs, shifts_for=None, extra_inst_terms=None, units=()):
     """obligations -> AtomQuery list with SMT-LIB text for each stage"""
     queries = []
     for oi, ob in enumerate(obs):
@@ -264,9 +278,37 @@ def prepare(obs, shifts_for=None, extra_inst_terms=None, euclid_pairs=None):
                 flatten(h, hyps)
             qf = [h for h in hyps if not has_quant(h)]
             int_sk = [s_ for s_ in sk if s_.sort() == I]
-            terms = [s_ - d for s_ in int_sk for d in shifts] + [s_ + d for s_ in int_sk for d in shifts[1:]]
+
+            def vclass(name):
+                # quantified variables are typed by name: t* = table index (pattern-instantiated only), i/j = unit (sector) index,
+                # anything else (k) = byte index.  Keeps irrelevant instances (and their div/mod terms) out of the query.
+                if name.startswith("t"):
+                    return "table"
+                if name[0] in "ij":
+                    return "unit"
+                return "byte"
+
+            def skname(c):
+                return c.decl().name().split("!")[0]
+
+            byte_sk = [s_ for s_ in int_sk if vclass(skname(s_)) == "byte"]
+            unit_sk = [s_ for s_ in int_sk if vclass(skname(s_)) == "unit"]
+            terms_byte = [s_ - d for s_ in byte_sk for d in shifts] + [s_ + d for s_ in byte_sk for d in shifts[1:]]
+            terms_unit = [s_ - d for s_ in unit_sk for d in shifts] + [s_ + d for s_ in unit_sk for d in shifts[1:]]
             if extra_inst_terms:
-                terms += list(extra_inst_terms(ob))
+                terms_byte += list(extra_inst_terms(ob))
+            # unit quotients: a byte index k lies in unit (sector) k div u; callee/element contracts are indexed by units
+            unit_facts = []
+            for s_ in byte_sk:
+                for u in units:
+                    uq, ur, uf = ediv(s_, z3.IntVal(u))
+                    unit_facts.append(uf)
+                    terms_unit += [uq] + [uq - d for d in shifts[1:]] + [uq + d for d in shifts[1:]]
+            if not units:
+                terms_unit += terms_byte
+                terms_byte = terms_byte + [t for t in terms_unit if not any(t.eq(x) for x in terms_byte)]
+            qf = qf + unit_facts
+            hyps = hyps + unit_facts
             qparts = []
             for h in hyps:
                 qparts += quantified_parts(h)
@@ -275,7 +317,10 @@ def prepare(obs, shifts_for=None, extra_inst_terms=None, euclid_pairs=None):
             for guard, fa in qparts:
                 if fa.num_vars() != 1 or fa.var_sort(0) != I:
                     continue
-                for t in terms:
+                cls = vclass(fa.var_name(0))
+                if cls == "table":
+                    continue
+                for t in (terms_unit if cls == "unit" else terms_byte):
                     b = z3.substitute_vars(fa.body(), t)
                     inst.append(b if guard is None else z3.Implies(guard, b))
             # (ii) table axioms: instantiate F(k) patterns at every ground argument of F (two rounds)
@@ -295,7 +340,7 @@ def prepare(obs, shifts_for=None, extra_inst_terms=None, euclid_pairs=None):
                 if not added or len(inst) + len(added) > 400:
                     break
                 inst += added
-            defs = unfold_opaque([body] + qf + inst)
+            defs = unfold_opaque([body] + qf + inst, ob_name=ob.name)
             lem = euclid_lemmas([body] + qf + inst + defs)
             stages = []
             if is_pure_arith(body):
@@ -331,9 +376,11 @@ def _model_dict(m):
     return out
 
 
-def solve_z3(text, timeout_ms, seed=0, linear=False):
+def solve_z3(text, timeout_ms, seed=0, linear=False, legacy=False):
     s = z3.Solver()
     s.set(timeout=timeout_ms)
+    if legacy:
+        s.set("arith.solver", 2)  # legacy simplex: on these integer queries often 100x faster than the default (and vice versa)
     if linear:
         s.set("arith.nl", False)  # products stay opaque: weaker theory, so `unsat` is still a proof; other answers are ignored
     if seed:
@@ -375,7 +422,17 @@ def solve_query(q_tuple):
     for nm, text in stages:
         lin = nm.endswith("/lin")
         try:
-            r, dt, model = solve_z3(text, min(timeout_ms, 5000) if lin else timeout_ms, seed, linear=lin)
+            if lin:
+                # two arithmetic back ends of z3, products opaque; only `unsat` is used
+                r, dt, model = solve_z3(text, min(timeout_ms, 8000), seed, linear=True, legacy=True)
+                if r != "unsat":
+                    total += dt
+                    r, dt, model = solve_z3(text, min(timeout_ms, 8000), seed, linear=True)
+            else:
+                r, dt, model = solve_z3(text, timeout_ms, seed)
+                if r == "unknown":
+                    total += dt
+                    r, dt, model = solve_z3(text, timeout_ms, seed, legacy=True)
         except z3.Z3Exception as e:  # parse/internal error: never a verdict about the code
             return idx, "error", nm, total, {}, "z3-5.1", str(e)[:300]
         total += dt
@@ -449,10 +506,15 @@ def run_queries(queries, jobs=None, timeout_ms=10000, thorough=False, seed=0):
 
 
 def shifts_by_name(pattern):
-    """shift terms = integer constants in the hypotheses whose name matches `pattern` (segment lengths in play)"""
-    rx = re.compile(pattern)
+    """shift terms = integer constants in the hypotheses whose name matches `pattern` (segment lengths in play).
+    `pattern` may be a dict {substring of the obligation name: regex} with "" as the default entry."""
+    if isinstance(pattern, dict):
+        table = {k: re.compile(v) for k, v in pattern.items()}
+    else:
+        table = {"": re.compile(pattern)}
 
     def f(ob):
+        rx = next((r for k, r in table.items() if k and k in ob.name), table.get("", re.compile(r"^$")))
         acc = {}
 
         def g(x):
